@@ -221,6 +221,9 @@ class PreemptibleResource(Entity):
         )
         self._insert_counter += 1
         heapq.heappush(self._waiters, waiter)
+        # A preemption that freed too little for this request may still have freed
+        # enough for a queued one: serve the queue instead of leaving it idle.
+        self._wake_waiters()
 
         logger.debug(
             "[%s] Queued acquire(%d, priority=%.1f), waiters=%d",
